@@ -137,6 +137,7 @@ struct World
   VSlot v[VSLOTS];
   BSlot b[BSLOTS];
   long counter = 1;
+  std::size_t scale = 1; // swarm knob: some runs use counts 8 times larger (reallocation at larger sizes)
   sim::Ctx &ctx;
 
   explicit World(sim::Ctx &c) : ctx(c) {}
@@ -333,7 +334,7 @@ struct World
     {
       if (vs.sut)
         return;
-      std::size_t const cnt = op.getu("n") % 20;
+      std::size_t const cnt = op.getu("n") % (20U * scale);
       T const val = fresh();
       bool ok;
       if (op.get("a") != 0)
@@ -351,7 +352,7 @@ struct World
     {
       if (vs.sut)
         return;
-      std::size_t const cnt = op.getu("n") % 20;
+      std::size_t const cnt = op.getu("n") % (20U * scale);
       std::vector<T> const src = fresh_n(cnt);
       long const kind = n == "ctor_il" ? 3 : static_cast<long>(op.getu("k") % 3);
       bool ok = false;
@@ -500,7 +501,7 @@ struct World
       RV &r = *vs.sut;
       std::vector<T> const before = vs.model;
       std::size_t const pos = op.getu("pos") % (before.size() + 1);
-      std::size_t const cnt = op.getu("n") % 9;
+      std::size_t const cnt = op.getu("n") % (9U * scale);
       bool const alias = op.get("alias") != 0 && !before.empty();
       std::size_t const ai = alias ? op.getu("ai") % before.size() : 0;
       T const val = alias ? before[ai] : fresh();
@@ -529,7 +530,7 @@ struct World
       RV &r = *vs.sut;
       std::vector<T> const before = vs.model;
       std::size_t const pos = op.getu("pos") % (before.size() + 1);
-      std::size_t const cnt = op.getu("n") % 12;
+      std::size_t const cnt = op.getu("n") % (12U * scale);
       long kind = static_cast<long>(op.getu("k") % 4);
       std::vector<T> src;
       if (kind == 3)
@@ -626,7 +627,7 @@ struct World
         return;
       RV &r = *vs.sut;
       std::vector<T> const before = vs.model;
-      std::size_t const cnt = op.getu("n") % 24;
+      std::size_t const cnt = op.getu("n") % (24U * scale);
       bool const alias = op.get("alias") != 0 && !before.empty();
       std::size_t const ai = alias ? op.getu("ai") % before.size() : 0;
       T const val = alias ? before[ai] : fresh();
@@ -650,7 +651,7 @@ struct World
       if (!vs.sut)
         return;
       RV &r = *vs.sut;
-      std::size_t const cnt = op.getu("n") % 40;
+      std::size_t const cnt = op.getu("n") % (40U * scale);
       bool const ok = guarded([&] { r.reserve(cnt); });
       if (ok)
         SIM_CHECK(r.capacity() >= cnt, "reserve-capacity", "capacity " + std::to_string(r.capacity()) + " after reserve(" + std::to_string(cnt) + ")");
@@ -756,7 +757,7 @@ struct World
     {
       if (bsl.sut)
         return;
-      std::size_t const cnt = op.getu("n") % 20;
+      std::size_t const cnt = op.getu("n") % (20U * scale);
       bool const ok = guarded([&] {
         bsl.sut = op.get("a") != 0 ? std::make_unique<Buf>(cnt, alloc) : std::make_unique<Buf>(cnt);
       });
@@ -784,7 +785,7 @@ struct World
     {
       if (!bsl.sut)
         return;
-      std::size_t const cnt = op.getu("n") % 24;
+      std::size_t const cnt = op.getu("n") % (24U * scale);
       bool const ok = guarded([&] { bsl.sut->resize_write_area(cnt); });
       if (ok)
         bsl.wsize = cnt;
@@ -811,7 +812,7 @@ struct World
       // append_from(_opt)(std::move(buffer), size, reader): the reader may be short, fail, throw
       if (!bsl.sut)
         return;
-      std::size_t const cnt = op.getu("n") % 16;
+      std::size_t const cnt = op.getu("n") % (16U * scale);
       std::size_t const got = op.getu("got") % (cnt + 1); // short read
       bool const none = n == "b_append_opt" && op.get("none") != 0;
       std::vector<T> const src = fresh_n(got);
@@ -889,7 +890,7 @@ struct World
       // read_from(_opt)<Buffer>(size, reader) creates a new buffer in an empty slot
       if (bsl.sut)
         return;
-      std::size_t const cnt = op.getu("n") % 16;
+      std::size_t const cnt = op.getu("n") % (16U * scale);
       std::size_t const got = op.getu("got") % (cnt + 1);
       bool const none = n == "b_read_opt" && op.get("none") != 0;
       std::vector<T> const src = fresh_n(got);
@@ -1003,7 +1004,7 @@ struct World
     {
       // container::dynamic_array: one allocation of exactly n elements, released on destruction
       using DA = fcppt::container::dynamic_array<T, A>;
-      std::size_t const cnt = op.getu("n") % 24;
+      std::size_t const cnt = op.getu("n") % (24U * scale);
       std::size_t const before = sim::ledger().live.size();
       std::unique_ptr<DA> da;
       bool const ok = guarded([&] { da = op.get("a") != 0 ? std::make_unique<DA>(cnt, alloc) : std::make_unique<DA>(cnt); });
@@ -1026,7 +1027,7 @@ struct World
     {
       // io::read_chars over a simulated stream (std::allocator inside; checked by result only)
       std::size_t const len = op.getu("len") % 24;
-      std::size_t const cnt = op.getu("n") % 24;
+      std::size_t const cnt = op.getu("n") % (24U * scale);
       std::size_t const chunk = op.getu("chunk") % 8;
       std::string text;
       for (std::size_t i = 0; i < len; ++i)
@@ -1063,6 +1064,9 @@ struct World
   void run(sim::Plan const &plan)
   {
     sim::ledger().reset();
+    scale = plan.cfg.getu("scale", 1) == 0 ? 1 : plan.cfg.getu("scale", 1);
+    if (scale > 1)
+      ctx.probe("large_counts_run");
     unsigned effective = 0;
     for (sim::Op const &op : plan.ops)
     {
@@ -1101,6 +1105,9 @@ void generate(sim::Rng &rng, sim::Plan &p, bool thorough)
 {
   (void)thorough;
   p.cfg.set("type", static_cast<long>(rng.below(3)));
+  bool const big = rng.chance(1, 8);
+  if (big)
+    p.cfg.set("scale", 8);
   bool const faulty = rng.chance(1, 2);
   if (faulty)
     p.cfg.set("faulty", 1);
@@ -1184,7 +1191,7 @@ void generate(sim::Rng &rng, sim::Plan &p, bool thorough)
       if (n == "swap")
         op.set("free", static_cast<long>(rng.below(2)));
       if (n == "ctor_n" || n == "ctor_range" || n == "ctor_il" || n == "insertn" || n == "insertr" || n == "resize" || n == "reserve")
-        op.set("n", static_cast<long>(rng.below(40)));
+        op.set("n", static_cast<long>(rng.below(big ? 400 : 40)));
       if (n == "ctor_range" || n == "insertr")
         op.set("k", static_cast<long>(rng.below(4)));
       if (n == "ctor_n" || n == "ctor_range")
